@@ -8,46 +8,50 @@ import (
 
 // Entry point to typecheck programs
 func Typecheck(processes []*Process, assumedFreeNames []Name, globalEnv *GlobalEnvironment) error {
-	errorChan := make(chan error)
-	doneChan := make(chan bool)
+	// Buffered, so that the typechecking goroutine can always deliver its (single) result and finish
+	resultChan := make(chan error, 1)
 
 	globalEnv.log(LOGINFO, "Initiating typechecking")
 
 	// Running in a separate process allows us to break the typechecking part as soon as the first
 	// error is found
-	go typecheckFunctionsAndProcesses(processes, assumedFreeNames, globalEnv, errorChan, doneChan)
+	go func() {
+		defer func() {
+			// An internal failure is reported as a type error, never as success
+			if r := recover(); r != nil {
+				resultChan <- fmt.Errorf("internal error while typechecking: %v", r)
+			}
+		}()
 
-	select {
-	case err := <-errorChan:
+		resultChan <- typecheckFunctionsAndProcesses(processes, assumedFreeNames, globalEnv)
+	}()
+
+	if err := <-resultChan; err != nil {
 		return err
-	case <-doneChan:
-		globalEnv.log(LOGINFO, "Typecheck successful")
 	}
+
+	globalEnv.log(LOGINFO, "Typecheck successful")
 
 	return nil
 }
 
-func typecheckFunctionsAndProcesses(processes []*Process, assumedFreeNames []Name, globalEnv *GlobalEnvironment, errorChan chan error, doneChan chan bool) {
-	defer func() {
-		// No error found, notify parent
-		doneChan <- true
-	}()
-
+// Stops at (and returns) the first error found
+func typecheckFunctionsAndProcesses(processes []*Process, assumedFreeNames []Name, globalEnv *GlobalEnvironment) error {
 	assignTypesToProcessProviders(processes)
 
 	// Start with some preliminary check on the labelled types
 	if err := preliminaryTypesDefinitionsChecks(globalEnv); err != nil {
-		errorChan <- err
+		return err
 	}
 
 	// Check that function definitions are well formed
 	if err := preliminaryFunctionDefinitionsChecks(globalEnv); err != nil {
-		errorChan <- err
+		return err
 	}
 
 	// Check that processes are well formed
 	if err := preliminaryProcessesChecks(processes, assumedFreeNames, globalEnv); err != nil {
-		errorChan <- err
+		return err
 	}
 
 	globalEnv.log(LOGRULEDETAILS, "Preliminary checks ok")
@@ -58,17 +62,19 @@ func typecheckFunctionsAndProcesses(processes []*Process, assumedFreeNames []Nam
 
 	// Typecheck function definitions
 	if err := typecheckFunctionDefinitions(globalEnv); err != nil {
-		errorChan <- err
+		return err
 	}
 
 	globalEnv.log(LOGRULEDETAILS, "Function declarations typecheck ok")
 
 	// Typecheck process definitions
 	if err := typecheckProcesses(processes, assumedFreeNames, globalEnv); err != nil {
-		errorChan <- err
+		return err
 	}
 
 	globalEnv.log(LOGRULEDETAILS, "Process declarations typecheck ok")
+
+	return nil
 }
 
 // Sets a common type to all provider names
